@@ -239,6 +239,13 @@ impl<T> CustomEvent<'_, T> {
     ///The event can only be modified in the order `NoEvent < Press <
     /// Release`
     fn update(&mut self, e: Self) {
+        #[cfg(kanata_verif)]
+        if matches!(
+            (&e, &*self),
+            (CustomEvent::Release(_), CustomEvent::Release(_))
+        ) {
+            verif::LOST_CUSTOM_RELEASES.fetch_add(1, std::sync::atomic::Ordering::Relaxed);
+        }
         use CustomEvent::*;
         match (&e, &self) {
             (Release(_), NoEvent) | (Release(_), Press(_)) => *self = e,
@@ -2075,6 +2082,14 @@ impl<'a, const C: usize, const R: usize, T: 'a + Copy + std::fmt::Debug> Layout<
             self.default_layer = value
         }
     }
+}
+
+/// Verification hook (off unless built with `--cfg kanata_verif`): counts the custom `Release`
+/// events that `CustomEvent::update` discards because the tick already carries one.
+#[cfg(kanata_verif)]
+pub mod verif {
+    pub static LOST_CUSTOM_RELEASES: std::sync::atomic::AtomicUsize =
+        std::sync::atomic::AtomicUsize::new(0);
 }
 
 /// Verification hook (off unless built with `--cfg kanata_verif`): read-only access to the two
